@@ -68,9 +68,14 @@ func c20Data(id, mbeh, ubeh int) string {
 	}
 	return fmt.Sprintf("[%d,%d,%d]", ubeh, id, mbeh)
 }
-func c20ErrText(id int) string         { return fmt.Sprintf("boom %d", id) }
+func c20ErrText(id int) string { return fmt.Sprintf("boom %d", id) }
 
-// marshal behaviours: 0 right data; 1 error; 2 error together with data; 3 panic.
+// c20Evil is an error whose Error method itself panics (a typed nil pointer whose method dereferences it).
+type c20Evil struct{ msg string }
+
+func (e *c20Evil) Error() string { return e.msg }
+
+// marshal behaviours: 0 right data; 1 error; 2 error together with data; 3 panic; 4 wrapped error; 5 panic with a value whose Error method panics.
 // The unmarshal behaviour travelling inside the data is always 0 for marshalled output.
 func c20Marshal(id, mbeh int) ([]byte, error) {
 	switch mbeh {
@@ -82,6 +87,9 @@ func c20Marshal(id, mbeh int) ([]byte, error) {
 		return []byte(c20Data(id, mbeh, 0)), errors.New(c20ErrText(id))
 	case 4: // an error with its own text that wraps an inner error carrying the plain scripted text
 		return nil, fmt.Errorf("outer layer: %w", errors.New(c20ErrText(id)))
+	case 5:
+		var e *c20Evil
+		panic(error(e))
 	}
 	panic(fmt.Sprintf("kaboom %d", id))
 }
@@ -112,6 +120,9 @@ func c20Unmarshal(data []byte) (id, mbeh int, set bool, err error) {
 		return id, mbeh, true, errors.New(c20ErrText(id))
 	case 5:
 		return 0, 0, false, fmt.Errorf("outer layer: %w", errors.New(c20ErrText(id)))
+	case 6:
+		var e *c20Evil
+		panic(error(e))
 	}
 	panic(fmt.Sprintf("kaboom %d", id))
 }
@@ -259,7 +270,7 @@ func c20PredicateMet(kind int, errText string, id int) bool {
 	return false
 }
 
-func c20Hook[C any](kind int) func(int, *C) error {
+func c20Hook[C any](kind int, rewrite func(*C)) func(int, *C) error {
 	switch kind {
 	case 1:
 		return func(int, *C) error { return nil }
@@ -267,6 +278,13 @@ func c20Hook[C any](kind int) func(int, *C) error {
 		return func(int, *C) error { return errors.New("hook failed") }
 	case 3:
 		return func(int, *C) error { panic("hook panicked") }
+	case 4:
+		return func(int, *C) error {
+			var e *c20Evil
+			panic(error(e))
+		}
+	case 5, 6:
+		return func(_ int, c *C) error { rewrite(c); return nil }
 	}
 	return nil
 }
@@ -306,23 +324,33 @@ func c20JudgeCase(s c20Spec, marshalDir bool) (applicable bool, j c20Judgement) 
 	if marshalDir && s.Constraint == 2 || !marshalDir && s.Constraint == 1 {
 		return false, c20Judgement{oPass, "not applicable"}
 	}
-	if s.Before >= 2 {
+	if s.Before >= 2 && s.Before <= 4 {
 		return true, c20Judgement{oFail, "before hook"}
 	}
-	if s.After >= 2 {
+	if s.After == 2 || s.After == 3 { // After kinds above 3 are mapped to a passing hook when the cases are built
 		return true, c20Judgement{oFail, "after hook"}
+	}
+	// a Before hook receives the case by pointer and may prepare it: what counts is the case after the hook
+	switch s.Before {
+	case 5:
+		s.DataRight, s.ValueRight = true, true
+	case 6:
+		s.DataRight, s.ValueRight = false, false
 	}
 	var panics, hasErr, hasResult, rightResult bool
 	errText := c20ErrText(s.ID)
+	if marshalDir { // the marshaler's error text carries the identity of the value it was called on
+		errText = c20ErrText(c20MarID(s))
+	}
 	if marshalDir && s.MBeh == 4 || !marshalDir && s.UBeh == 5 {
 		errText = "outer layer: " + errText
 	}
 	if marshalDir {
-		panics, hasErr, hasResult = s.MBeh == 3, s.MBeh == 1 || s.MBeh == 2 || s.MBeh == 4, s.MBeh == 0 || s.MBeh == 2
+		panics, hasErr, hasResult = s.MBeh == 3 || s.MBeh == 5, s.MBeh == 1 || s.MBeh == 2 || s.MBeh == 4, s.MBeh == 0 || s.MBeh == 2
 		// what the marshaler writes is c20Data(ID, MBeh, 0); the case expects c20ExpectedData
-		rightResult = s.DataRight && s.UBeh == 0
+		rightResult = s.DataRight && s.ValueRight && s.UBeh == 0
 	} else {
-		panics, hasErr, hasResult = s.UBeh == 4, s.UBeh == 2 || s.UBeh == 3 || s.UBeh == 5, s.UBeh == 0 || s.UBeh == 1 || s.UBeh == 3
+		panics, hasErr, hasResult = s.UBeh == 4 || s.UBeh == 6, s.UBeh == 2 || s.UBeh == 3 || s.UBeh == 5, s.UBeh == 0 || s.UBeh == 1 || s.UBeh == 3
 		rightResult = s.UBeh == 0 && s.ValueRight
 	}
 	if s.ErrKind != 0 {
@@ -422,11 +450,37 @@ func c20Invoke[T any](t *c20T, helper int, withHelper bool, specs []c20Spec, mk 
 		th = c20TypeHelper[T]{newValue}
 	}
 	cons := func(s c20Spec) test.Constraint { return test.Constraint(s.Constraint) }
+	// initial / final content of a case whose Before hook rewrites it (kind 5: wrong -> right, kind 6: right -> wrong)
+	initial := func(s c20Spec) c20Spec {
+		switch s.Before {
+		case 5:
+			s.DataRight, s.ValueRight = false, false
+		case 6:
+			s.DataRight, s.ValueRight = true, true
+		}
+		return s
+	}
+	final := func(s c20Spec) c20Spec {
+		switch s.Before {
+		case 5:
+			s.DataRight, s.ValueRight = true, true
+		case 6:
+			s.DataRight, s.ValueRight = false, false
+		}
+		return s
+	}
+	noAfter := func(k int) int {
+		if k > 3 {
+			return 1
+		}
+		return k
+	}
 	switch helper / 2 {
 	case 0:
 		cases := make([]test.CaseText[T], len(specs))
 		for i, s := range specs {
-			cases[i] = test.CaseText[T]{Constraint: cons(s), Before: c20Hook[test.CaseText[T]](s.Before), After: c20Hook[test.CaseText[T]](s.After), Error: c20ErrFunc(s), Data: c20ExpectedData(s), Value: mk(s)}
+			s := s
+			cases[i] = test.CaseText[T]{Constraint: cons(s), Before: c20Hook(s.Before, func(c *test.CaseText[T]) { c.Data, c.Value = c20ExpectedData(final(s)), mk(final(s)) }), After: c20Hook[test.CaseText[T]](noAfter(s.After), nil), Error: c20ErrFunc(s), Data: c20ExpectedData(initial(s)), Value: mk(initial(s))}
 		}
 		if helper%2 == 0 {
 			test.MarshalText(t, cases)
@@ -436,7 +490,8 @@ func c20Invoke[T any](t *c20T, helper int, withHelper bool, specs []c20Spec, mk 
 	case 1:
 		cases := make([]test.CaseBinary[T], len(specs))
 		for i, s := range specs {
-			cases[i] = test.CaseBinary[T]{Constraint: cons(s), Before: c20Hook[test.CaseBinary[T]](s.Before), After: c20Hook[test.CaseBinary[T]](s.After), Error: c20ErrFunc(s), Data: []byte(c20ExpectedData(s)), Value: mk(s)}
+			s := s
+			cases[i] = test.CaseBinary[T]{Constraint: cons(s), Before: c20Hook(s.Before, func(c *test.CaseBinary[T]) { c.Data, c.Value = []byte(c20ExpectedData(final(s))), mk(final(s)) }), After: c20Hook[test.CaseBinary[T]](noAfter(s.After), nil), Error: c20ErrFunc(s), Data: []byte(c20ExpectedData(initial(s))), Value: mk(initial(s))}
 		}
 		if helper%2 == 0 {
 			test.MarshalBinary(t, cases)
@@ -446,7 +501,8 @@ func c20Invoke[T any](t *c20T, helper int, withHelper bool, specs []c20Spec, mk 
 	default:
 		cases := make([]test.CaseJSON[T], len(specs))
 		for i, s := range specs {
-			cases[i] = test.CaseJSON[T]{Constraint: cons(s), Before: c20Hook[test.CaseJSON[T]](s.Before), After: c20Hook[test.CaseJSON[T]](s.After), Error: c20ErrFunc(s), Data: c20ExpectedData(s), Value: mk(s)}
+			s := s
+			cases[i] = test.CaseJSON[T]{Constraint: cons(s), Before: c20Hook(s.Before, func(c *test.CaseJSON[T]) { c.Data, c.Value = c20ExpectedData(final(s)), mk(final(s)) }), After: c20Hook[test.CaseJSON[T]](noAfter(s.After), nil), Error: c20ErrFunc(s), Data: c20ExpectedData(initial(s)), Value: mk(initial(s))}
 		}
 		if helper%2 == 0 {
 			test.MarshalJSON(t, cases)
@@ -454,6 +510,15 @@ func c20Invoke[T any](t *c20T, helper int, withHelper bool, specs []c20Spec, mk 
 			test.UnmarshalJSON(t, cases, th)
 		}
 	}
+}
+
+// c20MarID: the identity of the value handed to a marshal helper. A case with a "wrong value"
+// carries a value that marshals to other data than the case expects.
+func c20MarID(s c20Spec) int {
+	if s.ValueRight {
+		return s.ID
+	}
+	return s.ID + 3001 // keeps ID%7 and ID%2 classes apart from the expected one on purpose
 }
 
 // expectedValue: what the case expects the unmarshaler to produce.
@@ -473,7 +538,7 @@ func c20RunList(w *rt.W, helper, typ int, withHelper bool, specs []c20Spec) c20L
 		case 0:
 			c20Invoke(t, helper, withHelper, specs, func(s c20Spec) SV {
 				if marshalDir || s.Constraint == 1 {
-					return SV{ID: s.ID, MBeh: s.MBeh}
+					return SV{ID: c20MarID(s), MBeh: s.MBeh}
 				}
 				return SV{ID: c20ExpID(s), MBeh: s.MBeh}
 			}, func() SV { return SV{} })
@@ -483,28 +548,28 @@ func c20RunList(w *rt.W, helper, typ int, withHelper bool, specs []c20Spec) c20L
 					return nil
 				}
 				if marshalDir || s.Constraint == 1 {
-					return &SP{ID: s.ID, MBeh: s.MBeh}
+					return &SP{ID: c20MarID(s), MBeh: s.MBeh}
 				}
 				return &SP{ID: c20ExpID(s), MBeh: s.MBeh}
 			}, func() *SP { return &SP{} })
 		case 3:
 			c20Invoke(t, helper, withHelper, specs, func(s c20Spec) TextOnly {
 				if marshalDir || s.Constraint == 1 {
-					return TextOnly{ID: s.ID, MBeh: s.MBeh}
+					return TextOnly{ID: c20MarID(s), MBeh: s.MBeh}
 				}
 				return TextOnly{ID: c20ExpID(s), MBeh: s.MBeh}
 			}, func() TextOnly { return TextOnly{} })
 		case 4:
 			c20Invoke(t, helper, withHelper, specs, func(s c20Spec) JSONOnly {
 				if marshalDir || s.Constraint == 1 {
-					return JSONOnly{ID: s.ID, MBeh: s.MBeh}
+					return JSONOnly{ID: c20MarID(s), MBeh: s.MBeh}
 				}
 				return JSONOnly{ID: c20ExpID(s), MBeh: s.MBeh}
 			}, func() JSONOnly { return JSONOnly{} })
 		case 5:
 			c20Invoke(t, helper, withHelper, specs, func(s c20Spec) *BinaryOnly {
 				if marshalDir || s.Constraint == 1 {
-					return &BinaryOnly{ID: s.ID, MBeh: s.MBeh}
+					return &BinaryOnly{ID: c20MarID(s), MBeh: s.MBeh}
 				}
 				return &BinaryOnly{ID: c20ExpID(s), MBeh: s.MBeh}
 			}, func() *BinaryOnly { return &BinaryOnly{} })
@@ -572,13 +637,13 @@ func c20GenSpec(r *rt.Rand, id int) c20Spec {
 	// most cases satisfied, each defect introduced with moderate probability so single-defect lists are common
 	switch r.Intn(10) {
 	case 0:
-		s.MBeh = 1 + r.Intn(4)
+		s.MBeh = 1 + r.Intn(5)
 	case 1:
 		s.DataRight = false
 	}
 	switch r.Intn(10) {
 	case 0:
-		s.UBeh = 1 + r.Intn(5)
+		s.UBeh = 1 + r.Intn(6)
 	case 1:
 		s.ValueRight = false
 	}
@@ -588,14 +653,14 @@ func c20GenSpec(r *rt.Rand, id int) c20Spec {
 		s.MBeh, s.UBeh = 1, 2
 	case 1: // expects an error with an arbitrary predicate and arbitrary behaviour
 		s.ErrKind = 1 + r.Intn(10)
-		s.MBeh, s.UBeh = r.Intn(5), r.Intn(6)
+		s.MBeh, s.UBeh = r.Intn(6), r.Intn(7)
 	case 2: // expects the plain text and gets an error that only wraps it
 		s.ErrKind = []int{2, 4, 6, 8, 1}[r.Intn(5)]
 		s.MBeh, s.UBeh = 4, 5
 	}
 	if r.Chance(1, 4) {
-		s.Before = r.Intn(4)
-		if s.Before >= 2 && r.Chance(2, 3) {
+		s.Before = r.Intn(7)
+		if s.Before >= 2 && s.Before <= 4 && r.Chance(2, 3) {
 			s.Before = 1
 		}
 	}
@@ -626,7 +691,9 @@ func runC20(c *rt.Ctx) {
 		_, j6 := c20JudgeCase(c20Spec{ID: 1, MBeh: 3, ErrKind: 1}, true)
 		c.SelfTest("oracle-vectors", j1.verdict == oPass && j2.verdict == oFail && j3.verdict == oFail && j3.reason == "non-empty result alongside an expected error" && j4.verdict == oFail && !app && j6.verdict == oOpen)
 		sc := rt.ReplayCtx("C20")
-		sc.Serial("selftest", func(w *rt.W) { w.Fail("missed-failure:x", "list", nil, "no failure reported", "a failure", "synthetic") })
+		sc.Serial("selftest", func(w *rt.W) {
+			w.Fail("missed-failure:x", "list", nil, "no failure reported", "a failure", "synthetic")
+		})
 		c.SelfTest("monitor-records-a-mismatch", sc.Violations() == 1)
 	}
 	c.Parallel("lists", 0, func(w *rt.W) {
